@@ -59,7 +59,10 @@ def verify_unit(u, reg):
          'assumed': [], 'dropped': []}
   t0 = time.time()
   try:
-    node, text, info = extract.find(u['file'], u['qualname'])
+    if u.get('slice'):
+      node, text, info = extract.find_slice(u['file'], u['qualname'], u['slice'][0], u['slice'][1], u['params'])
+    else:
+      node, text, info = extract.find(u['file'], u['qualname'])
     res['info'] = info
     uu = dict(u)
     uu['node'] = node
